@@ -453,7 +453,12 @@ func dumpQErr(err error) string {
 
 func execQone(w []string) string {
 	api, fv, nd := w[1], atoi(w[2]), atoi(w[3])
-	wire := unhex(w[len(w)-1])
+	var wires [][]byte
+	for i, t := range w {
+		if t == "WIRE" && i+1 < len(w) {
+			wires = append(wires, unhex(w[i+1]))
+		}
+	}
 	e, err := pagesGet(fv)
 	if err != nil {
 		return "session-error:" + err.Error()
@@ -462,7 +467,7 @@ func execQone(w []string) string {
 	sc := e.script
 	stmt := fmt.Sprintf("c04pages %d %d", vh.EnvSeed(), e.n)
 	sc.mu.Lock()
-	sc.stmt, sc.wires, sc.served = stmt, [][]byte{wire}, 0
+	sc.stmt, sc.wires, sc.served = stmt, wires, 0
 	sc.mu.Unlock()
 	var lg []call
 	ds := make([]interface{}, nd)
@@ -581,8 +586,24 @@ func (x *runner) qoneOps(v int, reps int) {
 			}
 			class += fmt.Sprintf("/rows%d", len(rows))
 		}
+		toks := []string{"qone", api, fmt.Sprint(v), fmt.Sprint(nd)}
+		// empty first pages that announce more: Iter.checkErrAndNotFound looks at the pages after them
+		if ne := g.r.Intn(4); ne < 3 && g.r.Intn(3) == 0 {
+			for j := 0; j <= ne; j++ {
+				em := g.baseMeta(3)
+				if b.kind == "RES" && b.rk == "ROWS" {
+					em = g.pageMeta(b.m)
+				}
+				ps := []byte{byte(j + 1)}
+				em.paging = &ps
+				er := g.resp(v, &body{kind: "RES", rk: "ROWS", m: em}, true)
+				toks = append(toks, er.toks()...)
+				toks = append(toks, "WIRE", vh.Hex(er.encFrame()))
+			}
+			class += fmt.Sprintf("/after-%d-empty-pages", ne+1)
+		}
 		r := g.resp(v, b, true)
-		toks := append([]string{"qone", api, fmt.Sprint(v), fmt.Sprint(nd)}, r.toks()...)
+		toks = append(toks, r.toks()...)
 		toks = append(toks, "WIRE", vh.Hex(r.encFrame()))
 		x.emit(strings.Join(toks, " "), class)
 	}
